@@ -19,7 +19,7 @@ RULE = ("(a) exhaustive: every DAG on 1..6 nodes in insertion order (33 867 pare
         "operator is set running only when every parent is completed; every snapshot (before/after scheduler, after "
         "executor) shows running/completed operators only with completed parents; a start request is refused exactly when a "
         "parent is unfinished and the refusal ends the run with an error. Non-trivial = (a) DAG with a multi-parent node or "
-        "several roots; (b,c) multi-parent or multi-root DAG in which a child actually started, or a run in which an "
+        "several roots; iteration is also checked after every insertion (a DAG iterated while it is being built); (b,c) multi-parent or multi-root DAG in which a child actually started, or a run in which an "
         "inadmissible start was reached and refused; distinct = sha1 of the case JSON")
 ASSUMPTIONS = [
     "operator order inside a tick is taken from the log of state-change requests (a wrapper around PipelineRuntimeStatus.transition installed by the harness)",
@@ -124,6 +124,23 @@ def check_dag(parents):
         ops.append(p.new_operator([ops[j] for j in ps] or None))
     for k in range(3):
         why = check_order(list(p.values), ops, lambda x: x.parents, f"pipeline iteration #{k + 1}")
+        if why:
+            return why
+    # a pipeline that is iterated while it is still being built (iteration after every insertion)
+    d2 = DAG()
+    n2 = []
+    for k, ps in enumerate(parents):
+        nd = Node()
+        d2.add_node(nd, [n2[j] for j in ps] or None)
+        n2.append(nd)
+        why = check_order(list(d2), n2, lambda x: x.parents, f"DAG iteration after inserting node {k}")
+        if why:
+            return why
+    p2 = Pipeline("p2", Priority.QUERY)
+    o2 = []
+    for k, ps in enumerate(parents):
+        o2.append(p2.new_operator([o2[j] for j in ps] or None))
+        why = check_order(list(p2.values), o2, lambda x: x.parents, f"pipeline iteration after inserting operator {k}")
         if why:
             return why
     rs = p.runtime_status()
